@@ -1374,6 +1374,10 @@ func c32RunRevive(t *testing.T, r *kit.Run, k *c32Checker, rc c32ReapCase) (stri
 				ad = "new-address"
 			}
 			lc := m2.raft.LastContact()
+			if time.Since(lc) > rc.timeout(true)/2 {
+				// the node had not heard from the leader for a long time (a stalled machine): being reaped may be right
+				return "", fmt.Errorf("%w: revived node was removed, but its last contact from the leader is %v old", errC32Infra, time.Since(lc))
+			}
 			r.Violation("C32:responsive-node-reaped:rejoin-"+ad+":"+c32Role(v.Voter)+"-asking-"+c32Role(v.NewVoter),
 				fmt.Sprintf("%s: the node was shut down, came back %v later and re-joined; the leader reached it again %v after the re-join and it kept answering (its last contact from the leader is %v old), yet it was removed from the configuration %v after the re-join, %v after its shutdown",
 					desc, back.Sub(down).Round(time.Millisecond), heard.Sub(back).Round(time.Millisecond), time.Since(lc).Round(time.Millisecond), time.Since(back).Round(time.Millisecond), time.Since(down).Round(time.Millisecond)), rc)
